@@ -6,6 +6,7 @@ package frugal
 import (
 	"unsafe"
 
+	ireflect "github.com/cloudwego/frugal/internal/reflect"
 	"github.com/cloudwego/frugal/internal/vrt"
 )
 
@@ -338,8 +339,71 @@ func withBounds(sb, lb, mb int, f func()) {
 
 // decmsgCore: a well-formed message written under schema W (any field order, trailing bytes) is
 // decoded into a (possibly pre-filled) destination of type T: C03 C09 C10 C11 C14 C06.
-func decmsgCore(w, t *typeOps) {
+func decmsgCore(w, t *typeOps) { decmsgWith(w, t, nil) }
+
+// histCore (C07): the decode under test is preceded by another call that leaves scratch state in the pools
+// (or by pools havocked to arbitrary contents); its outcome must still equal the stateless reference.
+func histCore(p, w, t *typeOps) {
+	decmsgWith(w, t, func() {
+		vrt.Phase("pred")
+		switch vrt.Choice("pred", 5) {
+		case 0:
+			ireflect.VerifHavocPools()
+		case 1: // successful decode of a message of type p
+			vrt.SetOwner("user")
+			pv := p.NewZero()
+			fixedShape = 2
+			p.Fill(pv, "pred")
+			fixedShape = -1
+			msg := refEncodeStruct(p.St, p.ToRef(pv), nil)
+			pw := p.New()
+			vrt.SetOwner("dec")
+			_, err := DecodeObject(msg, pw)
+			vrt.Check(err == nil, "C07 predecessor decode succeeds")
+		case 2: // decode failing midway: message of type p truncated
+			vrt.SetOwner("user")
+			pv := p.NewZero()
+			fixedShape = 2
+			p.Fill(pv, "pred")
+			fixedShape = -1
+			msg := refEncodeStruct(p.St, p.ToRef(pv), nil)
+			cut := vrt.Choice("cut", len(msg))
+			pw := p.New()
+			vrt.SetOwner("dec")
+			_, err := DecodeObject(msg[:cut], pw)
+			vrt.Check(err != nil, "C05 truncated predecessor message is an error")
+		case 3: // size + encode by value (pooled argument copies)
+			vrt.SetOwner("user")
+			pv := p.NewZero()
+			fixedShape = 2
+			p.Fill(pv, "pred")
+			fixedShape = -1
+			vrt.SetOwner("impl")
+			n := EncodedSize(p.Deref(pv))
+			b := make([]byte, n)
+			_, err := EncodeObject(b, nil, p.Deref(pv))
+			vrt.Check(err == nil, "C07 predecessor encode succeeds")
+		case 4: // decode of the tested type itself with every field set
+			vrt.SetOwner("user")
+			pv := t.NewZero()
+			fixedShape = 2
+			t.Fill(pv, "pred")
+			fixedShape = -1
+			msg := refEncodeStruct(t.St, t.ToRef(pv), nil)
+			pw := t.New()
+			vrt.SetOwner("dec")
+			_, err := DecodeObject(msg, pw)
+			vrt.Check(err == nil, "C07 predecessor decode succeeds")
+		}
+		vrt.Phase("")
+	})
+}
+
+func decmsgWith(w, t *typeOps, pred func()) {
 	boundParams()
+	if pred != nil {
+		pred()
+	}
 	vrt.SetOwner("user")
 	pm := w.NewZero()
 	w.Fill(pm, "m")
@@ -347,7 +411,10 @@ func decmsgCore(w, t *typeOps) {
 	encOrder = vrt.Choice("order", vrt.Param("orders"))
 	msg := refEncodeStruct(w.St, rv, nil)
 	encOrder = 0
-	trail := vrt.Choice("trail", 2) * 2
+	trail := 0
+	if pred == nil {
+		trail = vrt.Choice("trail", 2) * 2
+	}
 	vrt.SetOwner("buf")
 	buf := make([]byte, 0, len(msg)+trail)
 	buf = append(buf, msg...)
@@ -356,7 +423,7 @@ func decmsgCore(w, t *typeOps) {
 	vrt.SetOwner("user")
 	pw := t.New()
 	prefilled := false
-	if vrt.Choice("prefill", 2) == 1 {
+	if pred == nil && vrt.Choice("prefill", 2) == 1 {
 		prefilled = true
 		// every field pre-set: pointers non-nil, containers with one element, symbolic contents
 		fixedShape = 2
